@@ -67,7 +67,7 @@ def run(chk, replay=None):
         chk.count(); chk.traces += 1; chk.nontriv((tuple(hs), window, challenge))
         now = r['t0']
         # the model needs 'now' only for the default window; take it from the request the implementation made
-        it = atlaslib.impl_trace(r['requests'])
+        it = atlaslib.collapse(atlaslib.impl_trace(r['requests']))
         if window is None:
             ls = [x for x in it if x.startswith('L')]
             if ls: now = int(ls[0].split(':')[3])
